@@ -15,7 +15,7 @@ import (
 // C01 — message round-trip fidelity (libpair + independent tap decode).
 
 func init() {
-	register(&Prop{ID: "C01", Run: runC01, Quick: 6000, Thorough: 150000, Level: "exploration"})
+	register(&Prop{ID: "C01", Run: runC01, Quick: 6000, Thorough: 400000, Level: "exploration"})
 }
 
 type sentMsg struct {
